@@ -502,6 +502,10 @@ func init() {
 					probe := Op{K: "update", L: l, B: -1, D: d}
 					if r.Chance(0.3) {
 						probe.M, probe.MV = "ext", r.Uint64() // an honest log may put extension lines after the root hash; still only its own signature line
+						if r.Chance(0.4) {
+							// ... lots of them: a note sized just below a power of two (a cap that fits the submitted note may not fit the cosigned one)
+							probe.M, probe.MV = "pad_to", uint64(Pick(r, 1024, 2048, 4096, 8192, 16384, 32768, 65536)-r.IntN(320))
+						}
 					}
 					p.Ops = append(p.Ops, probe)
 				}
